@@ -181,7 +181,7 @@ func (c *cctx) evalIdent(id *ast.Ident) cval {
 			for i, rn := range x.resNames {
 				if rn == name {
 					if val, ok := c.st.vars[x.results[i]]; ok {
-						return cval{val, x.results[i].Type()}
+						return c.unbox(val, x.results[i].Type())
 					}
 				}
 			}
@@ -199,13 +199,13 @@ func (c *cctx) evalIdent(id *ast.Ident) cval {
 			}
 		}
 		if v, ok := c.lookupVar(name); ok {
-			return cval{c.st.vars[v], v.Type()}
+			return c.unbox(c.st.vars[v], v.Type())
 		}
 		// results are addressable by their synthesised names
 		for i, rn := range x.resNames {
 			if rn == name {
 				if val, ok := c.st.vars[x.results[i]]; ok {
-					return cval{val, x.results[i].Type()}
+					return c.unbox(val, x.results[i].Type())
 				}
 			}
 		}
@@ -250,6 +250,18 @@ func (c *cctx) evalIdent(id *ast.Ident) cval {
 	sort.Strings(known)
 	c.fail("unknown identifier %s (bound here: %s)", name, strings.Join(known, " "))
 	return c.mathVal(x.ar.mathC(big.NewInt(0)))
+}
+
+// unbox: a scalar local that lives in the heap (its address was taken) is read
+// from its cell; struct locals keep their box (ghost fields and field
+// selectors go through the cell's address).
+func (c *cctx) unbox(v Value, t types.Type) cval {
+	if bx, ok := v.(Bx); ok && t != nil {
+		if _, isStruct := t.Underlying().(*types.Struct); !isStruct {
+			return cval{c.x.heapLoad(c.st, t, bx.P, ""), t}
+		}
+	}
+	return cval{v, t}
 }
 
 func (c *cctx) evalObject(o types.Object, at ast.Expr) cval {
